@@ -490,6 +490,14 @@ Proof.
   intros a x _ Ha. rewrite Hf. exact Ha.
 Qed.
 
+(* react_on_changed_components (also the first step of the host's CSendInitialSync since the repair
+   of S21): only the outbox and the queue of detected changes move *)
+Lemma react_components_core b pr : core (react_on_changed_components b pr) = core pr.
+Proof.
+  unfold react_on_changed_components. cbv zeta. rewrite foldl_core; [reflexivity|].
+  intros a [[u t] v]. cbv beta iota. destruct b; [apply broadcast_core|apply send_up_core].
+Qed.
+
 (* ---------- deferred commands ----------------------------------------------------------------- *)
 
 (* when, exactly, applying a command panics *)
@@ -534,8 +542,10 @@ Proof.
     exact (set_parent_twice_panic pr c p Hn Ep).
   - destruct from as [c|]; [rewrite (core_panic _ _ (relay_except_core _ _ _))|]; exact Hn.
   - rewrite (core_panic _ _ (relay_except_core _ _ _)). exact Hn.
-  - destruct (build_full_sync pr) as [pr1 ms] eqn:E.
-    pose proof (core_panic _ _ (build_full_sync_core pr)) as H. rewrite E in H. simpl in H.
+  - pose proof (core_panic _ _ (react_components_core true pr)) as H0.
+    set (pr0 := react_on_changed_components true pr) in *.
+    destruct (build_full_sync pr0) as [pr1 ms] eqn:E.
+    pose proof (core_panic _ _ (build_full_sync_core pr0)) as H. rewrite E in H. simpl in H.
     change (p_panic (foldl (fun pr0 m => send pr0 to m) pr1 ms) = None).
     rewrite (core_panic _ _ (foldl_core _ ms pr1 (fun a x => send_core a to x))). congruence.
   - destruct (build_full_sync pr) as [pr1 ms] eqn:E.
@@ -583,10 +593,12 @@ Proof.
     destruct (parent_differs pr c p); [exact (set_parent_twice_rest pr c p)|reflexivity].
   - destruct from as [c|]; [rewrite (core_rest _ _ (relay_except_core _ _ _))|]; reflexivity.
   - apply (core_rest _ _ (relay_except_core _ _ _)).
-  - destruct (build_full_sync pr) as [pr1 ms] eqn:E.
-    pose proof (core_rest _ _ (build_full_sync_core pr)) as H. rewrite E in H. simpl in H.
+  - pose proof (core_rest _ _ (react_components_core true pr)) as H0.
+    set (pr0 := react_on_changed_components true pr) in *.
+    destruct (build_full_sync pr0) as [pr1 ms] eqn:E.
+    pose proof (core_rest _ _ (build_full_sync_core pr0)) as H. rewrite E in H. simpl in H.
     change (rest (foldl (fun pr0 m => send pr0 to m) pr1 ms) = rest pr).
-    rewrite (core_rest _ _ (foldl_core _ ms pr1 (fun a x => send_core a to x))). exact H.
+    rewrite (core_rest _ _ (foldl_core _ ms pr1 (fun a x => send_core a to x))). congruence.
   - destruct (build_full_sync pr) as [pr1 ms] eqn:E.
     pose proof (core_rest _ _ (build_full_sync_core pr)) as H. rewrite E in H. simpl in H.
     rewrite (core_rest _ _ (send_up_core _ _)). exact H.
@@ -633,11 +645,13 @@ Proof.
   - destruct from as [c|]; [|exact H].
     eapply ents_all_ext; [apply (core_ents _ _ (relay_except_core _ _ _))|exact H].
   - eapply ents_all_ext; [apply (core_ents _ _ (relay_except_core _ _ _))|exact H].
-  - destruct (build_full_sync pr) as [pr1 ms] eqn:E.
-    pose proof (core_ents _ _ (build_full_sync_core pr)) as H1. rewrite E in H1. simpl in H1.
+  - pose proof (core_ents _ _ (react_components_core true pr)) as H0.
+    set (pr0 := react_on_changed_components true pr) in *.
+    destruct (build_full_sync pr0) as [pr1 ms] eqn:E.
+    pose proof (core_ents _ _ (build_full_sync_core pr0)) as H1. rewrite E in H1. simpl in H1.
     eapply ents_all_ext; [|exact H].
     change (p_ents (foldl (fun pr0 m => send pr0 to m) pr1 ms) = p_ents pr).
-    rewrite (core_ents _ _ (foldl_core _ ms pr1 (fun a x => send_core a to x))). exact H1.
+    rewrite (core_ents _ _ (foldl_core _ ms pr1 (fun a x => send_core a to x))). congruence.
   - destruct (build_full_sync pr) as [pr1 ms] eqn:E.
     pose proof (core_ents _ _ (build_full_sync_core pr)) as H1. rewrite E in H1. simpl in H1.
     eapply ents_all_ext; [|exact H]. rewrite (core_ents _ _ (send_up_core _ _)). exact H1.
@@ -664,6 +678,14 @@ Lemma foldl_out_all {B} (M : msg -> Prop) (f : peer_state -> B -> peer_state) l 
   (forall a x, x ∈ l -> out_all M a -> out_all M (f a x)) -> out_all M pr -> out_all M (foldl f pr l).
 Proof. intros Hf H. apply (foldl_inv (out_all M)); [exact H|exact Hf]. Qed.
 
+Lemma react_components_out_np b pr :
+  out_all not_parented pr -> out_all not_parented (react_on_changed_components b pr).
+Proof.
+  intros H. unfold react_on_changed_components. cbv zeta. apply foldl_out_all; [|exact H].
+  intros a [[u t] v] _ Ha. cbv beta iota.
+  destruct b; [apply broadcast_out_all|apply send_up_out_all]; (exact Ha || exact I).
+Qed.
+
 Lemma apply_cmd_out_np pr c :
   no_hier_cmd c -> ents_all no_parent pr ->
   out_all not_parented pr -> out_all not_parented (apply_cmd pr c).
@@ -677,10 +699,14 @@ Proof.
     apply relay_except_out_all; [exact H'|exact I].
   - destruct from as [c|]; [apply relay_except_out_all; [|exact I]|]; exact H.
   - apply relay_except_out_all; assumption.
-  - destruct (build_full_sync pr) as [pr1 ms] eqn:E.
-    pose proof (build_full_sync_out pr) as H1. rewrite E in H1. simpl in H1.
+  - apply (react_components_out_np true) in H.
+    assert (Hnp0 : ents_all no_parent (react_on_changed_components true pr)).
+    { eapply ents_all_ext; [apply (core_ents _ _ (react_components_core true pr))|exact Hnp]. }
+    set (pr0 := react_on_changed_components true pr) in *.
+    destruct (build_full_sync pr0) as [pr1 ms] eqn:E.
+    pose proof (build_full_sync_out pr0) as H1. rewrite E in H1. simpl in H1.
     assert (Hms : forall m, m ∈ ms -> not_parented m).
-    { intros m Hm. apply (build_full_sync_msgs pr m Hnp). rewrite E. exact Hm. }
+    { intros m Hm. apply (build_full_sync_msgs pr0 m Hnp0). rewrite E. exact Hm. }
     apply send_out_all; [|exact I].
     apply foldl_out_all.
     + intros a x Hx Ha. apply send_out_all; [exact Ha|apply Hms; exact Hx].
@@ -772,11 +798,6 @@ Proof.
   unfold entity_parented_client. apply foldl_core. intros a [e en]. cbv beta iota.
   repeat case_match; repeat core_step.
 Qed.
-Lemma react_components_core b pr : core (react_on_changed_components b pr) = core pr.
-Proof.
-  unfold react_on_changed_components. cbv zeta. rewrite foldl_core; [reflexivity|].
-  intros a [[u t] v]. cbv beta iota. destruct b; repeat core_step.
-Qed.
 Lemma react_assets_core b k pr : core (react_on_changed_assets b k pr) = core pr.
 Proof.
   unfold react_on_changed_assets. cbv zeta. rewrite foldl_core; [reflexivity|].
@@ -828,13 +849,6 @@ Proof.
   intros a [e en] Hin Ha. cbv beta iota.
   unfold ents_list in Hin. apply elem_of_map_to_list in Hin.
   rewrite (parent_changed_no_parent last en (Hnp e en Hin)). exact Ha.
-Qed.
-Lemma react_components_out_np b pr :
-  out_all not_parented pr -> out_all not_parented (react_on_changed_components b pr).
-Proof.
-  intros H. unfold react_on_changed_components. cbv zeta. apply foldl_out_all; [|exact H].
-  intros a [[u t] v] _ Ha. cbv beta iota.
-  destruct b; [apply broadcast_out_all|apply send_up_out_all]; (exact Ha || exact I).
 Qed.
 Lemma react_assets_out_np b k pr :
   out_all not_parented pr -> out_all not_parented (react_on_changed_assets b k pr).
@@ -2775,9 +2789,12 @@ Proof.
   - (* CRelay *) eapply link_inv_core_tail; [apply relay_except_core|exact HI].
   - (* CSendInitialSync *)
     eapply link_inv_core_tail; [|exact HI].
-    destruct (build_full_sync pr) as [pr1 ms] eqn:E.
-    pose proof (build_full_sync_core pr) as H1. rewrite E in H1. simpl in H1.
-    rewrite send_core. etransitivity; [apply (foldl_core _ ms pr1 (fun a x => send_core a to x))|exact H1].
+    pose proof (react_components_core true pr) as H0.
+    set (pr0 := react_on_changed_components true pr) in *.
+    destruct (build_full_sync pr0) as [pr1 ms] eqn:E.
+    pose proof (build_full_sync_core pr0) as H1. rewrite E in H1. simpl in H1.
+    rewrite send_core. etransitivity; [apply (foldl_core _ ms pr1 (fun a x => send_core a to x))|].
+    etransitivity; [exact H1|exact H0].
   - (* CRequestInitialSync *)
     eapply link_inv_core_tail; [|exact HI].
     destruct (build_full_sync pr) as [pr1 ms] eqn:E.
@@ -2859,10 +2876,13 @@ Proof.
     eapply out_all_ext; [exact (set_parent_twice_out pr c p)|exact H].
   - destruct from as [c|]; [apply relay_except_out_all; [|exact I]|]; exact H.
   - apply relay_except_out_all; assumption.
-  - destruct (build_full_sync pr) as [pr1 ms] eqn:E.
-    pose proof (build_full_sync_out pr) as H1. rewrite E in H1. simpl in H1.
+  - apply (react_components_out_gen msg_distinct not_parented_distinct true) in H.
+    apply (link_inv_core pr (react_on_changed_components true pr) _ (react_components_core true pr)) in HI.
+    set (pr0 := react_on_changed_components true pr) in *.
+    destruct (build_full_sync pr0) as [pr1 ms] eqn:E.
+    pose proof (build_full_sync_out pr0) as H1. rewrite E in H1. simpl in H1.
     assert (Hms : forall m, m ∈ ms -> msg_distinct m).
-    { intros m Hm. apply (build_full_sync_msgs_links pr _ m HI). rewrite E. exact Hm. }
+    { intros m Hm. apply (build_full_sync_msgs_links pr0 _ m HI). rewrite E. exact Hm. }
     apply send_out_all; [|exact I].
     apply foldl_out_all.
     + intros a x Hx Ha. apply send_out_all; [exact Ha|apply Hms; exact Hx].
